@@ -186,7 +186,7 @@ fn main() {
             go(&session::E2a { focus: session::Focus::Sender, suites: session::seq_suites(false), ws: if t { vec![3, 4, 5] } else { vec![3] } }, &cfg, &mut reports, &mut replayed);
             let mut starts: Vec<u64> = (0..4).map(|d| u64::MAX - d).collect();
             starts.extend_from_slice(&[0, 254, (1 << 32) - 2, (1 << 56) - 1, u64::MAX - 5]);
-            go(&session::E2b { suites: session::seq_suites(false), starts, depth: if t { 9 } else { 5 }, letters: vec![0, 1, 10, 12], label: "sender".into() }, &cfg, &mut reports, &mut replayed);
+            go(&session::E2b { suites: session::seq_suites(false), starts, depth: if t { 9 } else { 5 }, letters: vec![0, 1, 10, 12, 14], label: "sender".into() }, &cfg, &mut reports, &mut replayed);
         }
         "C05" => {
             let t = cfg.tier.thorough();
@@ -207,10 +207,10 @@ fn main() {
                 }
             }
             let starts: Vec<u64> = if t { session::seq_starts().into_iter().filter(|p| *p % 2 == 1 || *p > u64::MAX - 4 || *p < 3).collect() } else { vec![0, 255, (1 << 32) - 1, (1 << 56) - 1, u64::MAX - 3, u64::MAX - 2, u64::MAX - 1, u64::MAX] };
-            go(&session::E2b { suites: session::seq_suites(false), starts, depth: if t { 4 } else { 3 }, letters: (0..14).collect(), label: "full".into() }, &cfg, &mut reports, &mut replayed);
+            go(&session::E2b { suites: session::seq_suites(false), starts, depth: if t { 4 } else { 3 }, letters: (0..16).filter(|l| *l != 14).collect(), label: "full".into() }, &cfg, &mut reports, &mut replayed);
             go(&session::LongRuns { suites: session::seq_suites(false), n_fail: if t { 600_000 } else { 150_000 }, n_ok: if t { 300_000 } else { 70_000 } }, &cfg, &mut reports, &mut replayed);
             // a deeper tree from the two ends of the sequence space
-            go(&session::E2b { suites: session::seq_suites(false), starts: if t { vec![0, u64::MAX - 2, u64::MAX - 1] } else { vec![u64::MAX - 1] }, depth: if t { 5 } else { 4 }, letters: (0..14).collect(), label: "deep".into() }, &cfg, &mut reports, &mut replayed);
+            go(&session::E2b { suites: session::seq_suites(false), starts: if t { vec![0, u64::MAX - 2, u64::MAX - 1] } else { vec![u64::MAX - 1] }, depth: if t { 5 } else { 4 }, letters: (0..16).filter(|l| *l != 14).collect(), label: "deep".into() }, &cfg, &mut reports, &mut replayed);
         }
         "C06" => go(&props::c06::C06, &cfg, &mut reports, &mut replayed),
         "C07" => go(&props::c07::C07, &cfg, &mut reports, &mut replayed),
